@@ -1101,6 +1101,97 @@ fn diag_nf(params: &Value) -> Vec<String> {
     out
 }
 
+/// "The main loop keeps accepting messages" under a pile-up: one edit that invalidates a large
+/// document and, in the same write, more requests than any fixed small bound on in-flight
+/// requests (70-260). All of them wait on one recomputation, so they ARE in flight together.
+/// Judged: every request answered exactly once, a later probe answered, final text equal.
+fn run_burst(rep: &mut Report, env: &Env, bin: &Path, cr: &mut Rng, case_seed: u64) {
+    let nfun = cr.range(1500, 3000);
+    let mut text = String::from("pub fn f0(x) { x }\n");
+    for i in 1..nfun {
+        text.push_str(&format!("pub fn f{i}(x) {{ f{}(x) + {i} }}\n", i - 1));
+    }
+    let nreq = cr.range(70, 260);
+    let replay = json!({"kind":"burst","case_seed":case_seed.to_string(),"functions":nfun,"requests":nreq});
+    rep.count("bursts", 1);
+    let root_uri = file_uri(&env.proj.display().to_string());
+    let uri = file_uri(&env.proj.join("src/a.gleam").display().to_string());
+    let mut s = match Server::spawn(bin, &[], None) { Ok(s) => s, Err(_) => { rep.inconclusive += 1; return; } };
+    if s.initialize(Some(&root_uri), Duration::from_secs(20)).is_none() { rep.inconclusive += 1; return; }
+    s.notify("textDocument/didOpen", json!({"textDocument":{"uri":uri,"languageId":"gleam","version":1,"text":text}}));
+    // warm: the first analysis is done when its diagnostics arrive
+    s.pump_until(Duration::from_secs(60), |s| s.notifications.iter().any(|(m, _)| m == "textDocument/publishDiagnostics"));
+    let mut bytes: Vec<u8> = Vec::new();
+    bytes.extend(vh::lspclient::frame(&json!({"jsonrpc":"2.0","method":"textDocument/didChange","params":{"textDocument":{"uri":uri,"version":2},"contentChanges":[{"range":{"start":{"line":0,"character":0},"end":{"line":0,"character":0}},"text":"// burst\n"}]}})));
+    let mut ids = Vec::new();
+    for q in 0..nreq {
+        let line = 1 + cr.below(nfun);
+        let pos = json!({"line": line, "character": 8});
+        let (m, p): (&str, Value) = match q % 10 {
+            0 => ("textDocument/semanticTokens/full", json!({"textDocument":{"uri":uri}})),
+            1 | 2 => ("textDocument/documentHighlight", json!({"textDocument":{"uri":uri},"position":pos})),
+            3 => ("textDocument/definition", json!({"textDocument":{"uri":uri},"position":pos})),
+            _ => ("textDocument/hover", json!({"textDocument":{"uri":uri},"position":pos})),
+        };
+        let (id, msg) = s.make_request(m, p);
+        bytes.extend(vh::lspclient::frame(&msg));
+        ids.push(id);
+    }
+    if !s.write_bytes(&bytes) {
+        rep.violate("burst:server-died:write-failed", "the server closed its input during the burst".to_string(), replay);
+        return;
+    }
+    let t_b = Instant::now();
+    let done = s.pump_until(Duration::from_secs(120), |s| ids.iter().all(|id| s.responses.contains_key(id)));
+    if !done {
+        if !s.alive() {
+            let ex = exit_string(&mut s);
+            rep.violate(format!("burst:server-died:{ex}"), "server process gone during the burst".to_string(), replay);
+            return;
+        }
+        let pid = s.child.id();
+        let c1 = cpu_ticks(pid);
+        std::thread::sleep(Duration::from_secs(2));
+        let c2 = cpu_ticks(pid);
+        let probe = s.request("glas/syntaxTree", json!({"textDocument":{"uri":"file:///nonexistent/probe.gleam"}}));
+        let answered = s.wait_response(probe, Duration::from_secs(8)).is_some();
+        let missing = ids.iter().filter(|id| !s.responses.contains_key(id)).count();
+        if !answered && c2 <= c1 + 1 {
+            let bt = std::process::Command::new("gdb").args(["-p", &pid.to_string(), "-batch", "-ex", "thread apply all bt 12"]).output().map(|o| String::from_utf8_lossy(&o.stdout).to_string()).unwrap_or_default();
+            let mut rp = replay.clone();
+            rp["gdb"] = json!(truncate_str(&bt, 6000));
+            rep.violate("burst:main-loop-stopped", format!("{missing} of {nreq} requests unanswered 120 s after a burst on a {nfun}-function document, the main loop does not answer a probe, CPU flat ({c1}->{c2} ticks)"), rp);
+        } else if answered {
+            rep.violate("burst:request-never-answered", format!("{missing} of {nreq} requests unanswered 120 s after the burst although the main loop answers probes"), replay);
+        } else {
+            rep.inconclusive += 1;
+            rep.notes.push("burst: unanswered requests but CPU busy: inconclusive".into());
+        }
+        return;
+    }
+    rep.see("burst_answer_time", match t_b.elapsed().as_secs() { 0..=1 => "<2s", 2..=9 => "2-10s", 10..=29 => "10-30s", _ => ">=30s" });
+    rep.count("burst_requests_answered", nreq as u64);
+    s.drain(Duration::from_millis(200));
+    for id in &ids {
+        let n = s.responses.get(id).map(|v| v.len()).unwrap_or(0);
+        if n != 1 {
+            rep.violate(format!("burst:response-count-{n}"), format!("request {id} answered {n} times"), replay.clone());
+        }
+    }
+    let cancelled = ids.iter().filter(|id| s.responses[id][0]["error"]["code"].as_i64() == Some(-32800)).count();
+    rep.count("burst_requests_cancelled", cancelled as u64);
+    let probe = s.request("glas/syntaxTree", json!({"textDocument":{"uri":uri}}));
+    match s.wait_response(probe, Duration::from_secs(60)).as_ref().and_then(|t| t.get("result")).and_then(|r| r.as_str()) {
+        Some(dump) => {
+            if let Err(e) = synmon::dump_matches_text(dump, &format!("// burst\n{text}")) {
+                rep.violate("burst:final-text-differs", e, replay);
+            }
+        }
+        None => rep.violate("burst:final-probe-unanswered-or-error", "syntax tree of the document after the burst".to_string(), replay),
+    }
+    s.shutdown();
+}
+
 fn run_c16(args: &Args) -> Report {
     let mut rep = Report::new("C16", args.shard);
     let env = setup_env(args, "c16");
@@ -1111,9 +1202,20 @@ fn run_c16(args: &Args) -> Report {
     let mut n = 0u64;
     let root_uri = file_uri(&env.proj.display().to_string());
     let uris = [file_uri(&env.proj.join("src/a.gleam").display().to_string()), file_uri(&env.proj.join("src/b.gleam").display().to_string())];
+    let mut cases = 0u64;
     while t0.elapsed().as_secs_f64() < args.budget_s {
         let Some(case_seed) = args.next_case(&mut r) else { break };
+        // one case in 25 is a pile-up burst (decided by the seed alone, so that a replay
+        // sees the same); the first case of every shard is made one
+        cases += 1;
+        let case_seed = if cases == 1 && args.only_case().is_none() { case_seed - case_seed % 25 } else { case_seed };
         let mut cr = Rng::new(case_seed);
+        if case_seed % 25 == 0 {
+            rep.evaluations += 1;
+            run_burst(&mut rep, &env, &env.bin, &mut cr, case_seed);
+            n += 1;
+            continue;
+        }
         let ndocs = cr.range(1, 2);
         // versions[d][v] = text of doc d at global step v
         let mut cur: Vec<Doc> = (0..ndocs).map(|_| Doc::new(big_module(&mut cr))).collect();
